@@ -482,6 +482,10 @@ func (m *Machine) intrinsic(s *State, f *Frame, x *ssa.Call, name string, callee
 			}
 		}
 		return out, true
+	case strings.HasPrefix(name, "(encoding/binary.bigEndian).") || strings.HasPrefix(name, "(encoding/binary.littleEndian)."):
+		if r, ok := m.binaryIntrinsic(s, f, x, name, args); ok {
+			return r, true
+		}
 	case name == "bytes.Compare":
 		f.env[x] = Sc{m.cmpBytes(m.bytesOf(s, args[0]), m.bytesOf(s, args[1]))}
 		return nil, true
@@ -534,7 +538,11 @@ func (m *Machine) intrinsic(s *State, f *Frame, x *ssa.Call, name string, callee
 		}
 		return nil, true
 	case name == "(github.com/oxia-db/oxia/server/util/crc.Checksum).Update":
-		f.env[x] = m.internalScalar(s, "crc", types.Typ[types.Uint32])
+		// crc32 (assembly): uninterpreted function of (previous value, bytes); one symbol per length
+		bs := m.bytesOf(s, args[1])
+		m.stubs["crc32 as uninterpreted function"]++
+		s.uf = true
+		f.env[x] = Sc{c.UF(fmt.Sprintf("crc%d", len(bs)), 32, append([]*Term{sc(args[0])}, bs...)...)}
 		return nil, true
 	case strings.HasSuffix(name, ".init") && callee.Pkg != nil && !m.initPkgs[callee.Pkg.Pkg.Path()]:
 		return nil, true // skip foreign package initialisers
@@ -635,4 +643,77 @@ func (m *Machine) summarizedCall(s *State, f *Frame, x *ssa.Call, callee *ssa.Fu
 		return nil
 	}
 	return others
+}
+
+// binaryIntrinsic models encoding/binary's fixed-width accessors as concat/extract so that a value
+// written and read back is syntactically the same term.
+func (m *Machine) binaryIntrinsic(s *State, f *Frame, x *ssa.Call, name string, args []Value) ([]*State, bool) {
+	c := m.ctx
+	big := strings.Contains(name, "bigEndian")
+	meth := name[strings.LastIndex(name, ".")+1:]
+	var nb int
+	switch {
+	case strings.HasSuffix(meth, "16"):
+		nb = 2
+	case strings.HasSuffix(meth, "32"):
+		nb = 4
+	case strings.HasSuffix(meth, "64"):
+		nb = 8
+	default:
+		return nil, false
+	}
+	in := f.blk.Instrs[f.idx-1]
+	split := func(v *Term) []*Term { // bytes in memory order
+		out := make([]*Term, nb)
+		for i := 0; i < nb; i++ {
+			b := c.Extract(8*i+7, 8*i, v) // i-th least significant byte
+			if big {
+				out[nb-1-i] = b
+			} else {
+				out[i] = b
+			}
+		}
+		return out
+	}
+	switch {
+	case strings.HasPrefix(meth, "Uint"):
+		sl := args[1].(SliceV)
+		if sl.len < nb {
+			m.panicState(s, "index out of range", f, in)
+			return nil, true
+		}
+		var acc *Term
+		for i := 0; i < nb; i++ {
+			k := i
+			if !big {
+				k = nb - 1 - i
+			}
+			b := sc(m.sliceElem(s, sl, k))
+			if acc == nil {
+				acc = b
+			} else {
+				acc = c.Concat(acc, b)
+			}
+		}
+		f.env[x] = Sc{acc}
+		return nil, true
+	case strings.HasPrefix(meth, "PutUint"):
+		sl := args[1].(SliceV)
+		if sl.len < nb {
+			m.panicState(s, "index out of range", f, in)
+			return nil, true
+		}
+		for i, b := range split(sc(args[2])) {
+			s.store(Ptr{obj: sl.obj, path: append(append([]int(nil), sl.path...), sl.off+i)}, Sc{b})
+		}
+		return nil, true
+	case strings.HasPrefix(meth, "AppendUint"):
+		var vals []Value
+		for _, b := range split(sc(args[2])) {
+			vals = append(vals, Sc{b})
+		}
+		f.env[x] = m.doAppend(s, x.Type(), args[1].(SliceV), vals)
+		return nil, true
+	}
+	return nil, false
 }
